@@ -60,6 +60,28 @@ def index_perm(e: ast.AST) -> tuple[str, tuple] | None:
     return None
 
 
+def alpha_norm(e: ast.AST, maxlen: int = 600) -> str:
+    """norm() of e with comprehension / lambda variables renamed by position
+    (two expressions that differ only in the names of bound variables read
+    the same)."""
+    e = clone(e)
+    table: dict[str, str] = {}
+    for c in ast.walk(e):
+        if isinstance(c, ast.comprehension):
+            for n in ast.walk(c.target):
+                if isinstance(n, ast.Name):
+                    table.setdefault(n.id, f"_v{len(table)}")
+        elif isinstance(c, ast.Lambda):
+            for a in c.args.args:
+                table.setdefault(a.arg, f"_v{len(table)}")
+    for n in ast.walk(e):
+        if isinstance(n, ast.Name) and n.id in table:
+            n.id = table[n.id]
+        elif isinstance(n, ast.arg) and n.arg in table:
+            n.arg = table[n.arg]
+    return norm(e, maxlen)
+
+
 def utext(node: ast.AST) -> str:
     """ast.unparse without the suffixes of names introduced by the inliner
     (multi-line; for whole-function text searches)."""
